@@ -504,6 +504,17 @@ fn main() {
         probe_main(&argv[2..]);
         return;
     }
+    if argv.get(1).map(|s| s.as_str()) == Some("slices") {
+        // `c06 slices <quick|thorough> <seed> <out-dir>`: the `slices` family alone (its own seed stream)
+        silence_panics();
+        let out = PathBuf::from(&argv[4]);
+        std::fs::create_dir_all(&out).expect("mkdir");
+        let mut meta = Meta::default();
+        push_slices(&mut Rng::new(argv[3].parse().expect("seed")), argv[2] == "thorough", &out, &mut meta);
+        println!("{}", json!({"families": meta.families, "oracle_failures": meta.oracle_failures.len()}));
+        meta.write(&out);
+        return;
+    }
     let args = parse_args();
     silence_panics();
     let thorough = args.tier == "thorough";
@@ -618,12 +629,175 @@ fn main() {
     }
     meta.extra.insert("inputs_not_scheduled_after_stop".into(), json!(skipped));
     meta.families.push(sink.finish());
+    // ---------------- the lexer's slicing sites (drawn last: the streams above keep their seeds)
+    push_slices(&mut rng, thorough, &args.out, &mut meta);
     meta.write(&args.out);
+}
+
+// ------------------------------------------------------------------ family slices: where the lexer cuts
+
+const SLICE_MB: [&str; 5] = ["é", "日", "😀", "\u{a0}", "\u{301}"];
+
+fn gal_dl(d: &[String]) -> String {
+    format!(
+        "(mkDelims {} {} {} {} {} {})",
+        gal_bytes(d[0].as_bytes()), gal_bytes(d[1].as_bytes()), gal_bytes(d[2].as_bytes()),
+        gal_bytes(d[3].as_bytes()), gal_bytes(d[4].as_bytes()), gal_bytes(d[5].as_bytes())
+    )
+}
+
+/// Token byte ranges of the raw lexer run, or the error class. The hook's error carries no source:
+/// it is never formatted.
+fn real_ranges(d: &[String], src: &str) -> Outcome<Vec<(usize, usize)>> {
+    let r = guarded(|| match tera::verif::lex(src, mk_delims(d), false) {
+        Ok(v) => Ok(Ok(v.into_iter().map(|(_, sp)| (sp.range.start, sp.range.end)).collect::<Vec<_>>())),
+        Err(e) => Ok(Err(err_class(&e))),
+    });
+    match r {
+        Outcome::Ok(Ok(v)) => Outcome::Ok(v),
+        Outcome::Ok(Err(c)) => Outcome::Err(c, "lexer error".into()),
+        Outcome::Err(c, m) => Outcome::Err(c, m),
+        Outcome::Panic(m) => Outcome::Panic(m),
+    }
+}
+
+fn push_slice_case(sink: &mut Sink, meta: &mut Meta, d: &[String], src: &str, tag: &str) {
+    let r = real_ranges(d, src);
+    let g = format!(
+        "{{| s_dl := {}; s_src := {}; s_impl := {} |}}",
+        gal_dl(d),
+        gal_bytes(src.as_bytes()),
+        r.gal(|v| format!("[{}]", v.iter().map(|(a, b)| format!("rg {a} {b}")).collect::<Vec<_>>().join("; ")))
+    );
+    let desc = json!({"op": "lex-slices", "delimiters": d, "source": src,
+        "impl": r.json(|v| json!(v.iter().map(|(a, b)| format!("{a}..{b}")).collect::<Vec<_>>()))});
+    meta.oracle_checks += 1;
+    match &r {
+        Outcome::Panic(m) => meta.oracle_fail(&format!("panic in lexer: {m}"), None, desc.clone()),
+        Outcome::Ok(v) => {
+            if v.iter().any(|&(a, b)| !(a <= b && b <= src.len() && src.is_char_boundary(a) && src.is_char_boundary(b))) {
+                meta.oracle_fail("token range outside the source or not on a character boundary", None, desc.clone());
+            }
+        }
+        _ => {}
+    }
+    let mb = !src.is_ascii();
+    let nontrivial = mb && match &r { Outcome::Ok(v) => v.len() >= 3, _ => true };
+    let res = match &r { Outcome::Ok(_) => "impl:ok", Outcome::Err(..) => "impl:err", Outcome::Panic(_) => "impl:panic" };
+    let dk = if d.iter().all(|s| s.is_ascii()) { "ascii-delimiters" } else { "2-byte-character-delimiters" };
+    sink.push(g, desc, nontrivial, None, &[tag, res, dk, if mb { "multi-byte" } else { "ascii" }]);
+}
+
+/// Every kind of lexer step spelled in the delimiters `d`, with multi-byte characters where a cut
+/// could land inside one: (kind, text).
+fn slice_items(d: &[String]) -> Vec<(&'static str, String)> {
+    let (bs, be, vs, ve, cs, ce) = (&d[0], &d[1], &d[2], &d[3], &d[4], &d[5]);
+    let mut v: Vec<(&'static str, String)> = Vec::new();
+    for t in ["a", "é", "日本", " é ", "\u{a0}x", "-", "x-", "😀", "a\nb", "\u{2028}", "e\u{301}"] {
+        v.push(("text", t.to_string()));
+    }
+    let exprs = [
+        "a", "a.b", "é", "\"é\"", "'日'~`😀`", "\"\\é\"", "\"a\\\"é\"", "\"é", "'é\\", "1.5", "12", "99999999999999999999", "1.2.3", "...",
+        "a//b", "a?.b", "a ?[ 0 ]", "a|f(x=\"ü\")", "ident_é", "-1", "{\"k\": 'é'}", "\"\\n\\t\"", "\"\\", "a b", "", "9é", "_é", "\"日\"é",
+    ];
+    for e in exprs {
+        for (m1, w1, w2, m2) in [("", " ", " ", ""), ("-", "", "", "-"), ("-", "\n\t ", " ", ""), ("", "", " ", "-")] {
+            v.push(("var", format!("{vs}{m1}{w1}{e}{w2}{m2}{ve}")));
+        }
+    }
+    for e in ["if a", "set x = \"é\"", "é", "endif", "for é in 日"] {
+        for (m1, m2) in [("", ""), ("-", "-")] {
+            v.push(("tag", format!("{bs}{m1} {e} {m2}{be}")));
+        }
+    }
+    let bodies = ["".to_string(), "é".into(), " 日 ".into(), format!("{bs} x"), format!("é{bs}é"), format!("{vs}é{ve}"), "😀-".into(),
+                  format!("{bs}-é"), format!("{bs} endraw é{be}")];
+    for b in &bodies {
+        for (m1, m2, m3, m4) in [("", "", "", ""), ("-", "-", "-", "-"), ("", "-", "-", "")] {
+            v.push(("raw", format!("{bs}{m1} raw {m2}{be}{b}{bs}{m3} endraw {m4}{be}")));
+        }
+        v.push(("raw-open", format!("{bs} raw {be}{b}")));
+        v.push(("raw-open", format!("{bs} raw {be}{b}{bs} endraw")));
+    }
+    for b in ["", "é", " é ", "日", "-", "😀", "é-"] {
+        for (m1, m2) in [("", ""), ("-", "-"), ("-", "")] {
+            v.push(("comment", format!("{cs}{m1}{b}{m2}{ce}")));
+        }
+        v.push(("comment-open", format!("{cs}{b}")));
+    }
+    v.push(("comment", format!("{cs}{vs}é{ce}")));
+    v
+}
+
+fn push_slices(rng: &mut Rng, thorough: bool, out: &Path, meta: &mut Meta) {
+    let hdr = "From TeraV Require Import Model.Value Model.Lexer Corr.CorrC06Lex.";
+    let mut sink = Sink::new(out, "slices", hdr, "check_slices");
+    // the accepted delimiter sets of the oracle pool: 2 bytes each, distinct start delimiters
+    let sets: Vec<Vec<String>> = delimiter_sets()
+        .into_iter()
+        .filter(|(d, ok)| *ok && d.iter().all(|s| s.len() == 2) && d[0] != d[2] && d[0] != d[4] && d[2] != d[4])
+        .map(|(d, _)| d)
+        .chain([
+            // ASCII and 2-byte-character delimiters mixed; `é` / `è` also occur in the texts and share their lead byte
+            ["÷", "×", "{{", "}}", "é", "è"].iter().map(|s| s.to_string()).collect::<Vec<_>>(),
+            // 2-byte characters sharing the lead byte C2 with NBSP (a White_Space character trimmed next to `-`)
+            ["§", "¶", "«", "»", "¿", "¡"].iter().map(|s| s.to_string()).collect::<Vec<_>>(),
+        ])
+        .collect();
+    let (n_sweep, n_docs, n_pref) = if thorough { (usize::MAX, 110, 7) } else { (12, 14, 1) };
+    for d in &sets {
+        let items = slice_items(d);
+        // 1. one item with a multi-byte character directly before and after it (every kind in thorough,
+        //    a seeded sample in quick)
+        let mut k = 0;
+        for (kind, it) in &items {
+            if n_sweep != usize::MAX && !rng.chance(n_sweep as u64, items.len() as u64) {
+                continue;
+            }
+            let mb = SLICE_MB[k % SLICE_MB.len()];
+            k += 1;
+            push_slice_case(&mut sink, meta, d, &format!("{mb}{it}{mb}"), kind);
+            if thorough {
+                push_slice_case(&mut sink, meta, d, it, kind);
+            }
+        }
+        // 2. random documents of 1..5 items, a multi-byte character between two items every other time
+        let mut docs: Vec<String> = Vec::new();
+        for _ in 0..n_docs {
+            let n = 1 + rng.below(5);
+            let mut s = String::new();
+            for _ in 0..n {
+                if rng.chance(1, 2) {
+                    s.push_str(*rng.pick(&SLICE_MB[..]));
+                }
+                s.push_str(&rng.pick(&items).1);
+            }
+            if rng.chance(1, 3) {
+                s.push_str(*rng.pick(&SLICE_MB[..]));
+            }
+            push_slice_case(&mut sink, meta, d, &s, "doc");
+            docs.push(s);
+        }
+        // 3. every character prefix of some of them (unterminated strings, tags, comments, raw blocks)
+        for s in docs.iter().take(n_pref) {
+            for (i, _) in s.char_indices().skip(1) {
+                push_slice_case(&mut sink, meta, d, &s[..i], "prefix");
+            }
+        }
+    }
+    meta.families.push(sink.finish());
 }
 
 fn replay(rp: &PathBuf, out: &Path) {
     let r: J = serde_json::from_str(&std::fs::read_to_string(rp).expect("replay file")).expect("json");
-    let inp = if r.get("input").is_some() { r["input"].clone() } else { r.clone() };
+    let inp = if r.get("input").is_some() { r["input"].clone() } else if r.get("case").is_some() { r["case"].clone() } else { r.clone() };
+    if inp["op"].as_str() == Some("lex-slices") {
+        let d: Vec<String> = inp["delimiters"].as_array().map(|a| a.iter().map(|x| x.as_str().unwrap_or("").to_string()).collect()).unwrap_or_default();
+        let src = inp["source"].as_str().unwrap_or("");
+        silence_panics();
+        println!("token ranges: {}", real_ranges(&d, src).json(|v| json!(v.iter().map(|(a, b)| format!("{a}..{b}")).collect::<Vec<_>>())));
+        return;
+    }
     let src = if let Some(rc) = inp.get("recipe").filter(|x| !x.is_null()) {
         build_recipe(rc)
     } else if let Some(s) = inp["source"].as_str() {
